@@ -75,6 +75,9 @@ func c09Cmd(args []string) {
 	}
 }
 
+// c09Perennial: permanent crops by crop code (grass land, pasture, alfalfa); everything else shipped is an annual crop
+func c09Perennial(code string) bool { return code == "GR" || code == "GRE" || code == "AA" }
+
 func bits(f float64) uint64 { return math.Float64bits(f) }
 
 func sameF(a, b float64) bool { return bits(a) == bits(b) || (math.IsNaN(a) && math.IsNaN(b)) }
@@ -202,7 +205,10 @@ func c09Line(work, line string, yml bool, tag string, lineNo int, r *rng, every,
 					if pre.CropOverwrite != nil {
 						pre.CropOverwrite.OverwriteCropParameters(pn, &g0, &l0)
 					}
-					carried := g2.DAUERKULT && pre.AKF.Num > 2 && pre.FRUCHT[ai] == pre.FRUCHT[ai-1]
+					if g2.DAUERKULT != c09Perennial(crop) {
+						ofail(g, zeit, "permanent-crop-flag-wrong", "read DAUERKULT=%v LEGUM=%v for crop code %s format-yml=%v", g2.DAUERKULT, g2.LEGUM, crop, yml)
+					}
+					carried := c09Perennial(crop) && pre.AKF.Num > 2 && pre.FRUCHT[ai] == pre.FRUCHT[ai-1]
 					wantW, wantG, wantR := g0.WORG, g0.GEHOB, g0.WUGEH
 					if carried {
 						wantW, wantG, wantR = pre.WORG, pre.GEHOB, pre.WUGEH
@@ -217,9 +223,9 @@ func c09Line(work, line string, yml bool, tag string, lineNo int, r *rng, every,
 					if !sameF(g2.GEHOB, wantG) || !sameF(g2.WUGEH, wantR) {
 						ofail(g, zeit, "initial-N-concentration-not-installed", "GEHOB=%v expected=%v WUGEH=%v expected=%v perennial=%v repeat=%v format-yml=%v", g2.GEHOB, wantG, g2.WUGEH, wantR, g2.DAUERKULT, repeat, yml)
 					}
-					readerCases[fmt.Sprintf("perennial=%v repeat=%v yml=%v", g2.DAUERKULT, repeat, yml)]++
+					readerCases[fmt.Sprintf("perennial=%v repeat=%v yml=%v", c09Perennial(crop), repeat, yml)]++
 				}
-				if !g2.DAUERKULT {
+				if !c09Perennial(crop) {
 					// the real reader run on the copy: the stage days of the crop before must be cleared (initial state of the stage model)
 					for k := 0; k < 10; k++ {
 						if g2.DEV[k] != 0 {
@@ -237,7 +243,7 @@ func c09Line(work, line string, yml bool, tag string, lineNo int, r *rng, every,
 					// standing crop back to stage 1 (development runs backwards)
 					ofail(g, zeit, "stage-decreased", "resown-while-standing first-sowing=%s stage-before=%d stage-now=%d", g.Kalender(tr.sow), tr.lastIdx+1, g.INTWICK.Index+1)
 				}
-				if !g.DAUERKULT {
+				if !c09Perennial(crop) {
 					// the per-crop reset at sowing: no stage day of a stage this crop has not reached may survive from the crop before
 					for k := g.INTWICK.Index + 1; k < 10; k++ {
 						if k >= 1 && g.DEV[k] != 0 {
@@ -261,10 +267,14 @@ func c09Line(work, line string, yml bool, tag string, lineNo int, r *rng, every,
 					"GEHMAX": g.GEHMAX, "PE": g.PE[:g.WURZ], "NFIX": g.NFIX, "WURZ": g.WURZ, "TEMP": g.TEMP[g.TAG.Index], "pre_PESUM": pre.PESUM,
 					"pre_GEHOB": pre.GEHOB, "pre_WUGEH": pre.WUGEH, "pre_WORG": pre.WORG[:], "pre_OBMAS": pre.OBMAS, "pre_WUMAS": pre.WUMAS})
 			}
-			if g.DAUERKULT {
-				// permanent crops are outside the claim (regrowth resets the stage): reader-level checks above only
+			if c09Perennial(crop) {
+				// permanent crops are outside the claim (regrowth resets the stage): reader-level checks above only.
+				// 'Permanent' is judged by the crop CODE, never by the flag the parameter reader delivered.
 				tr.active = false
 				return
+			}
+			if g.DAUERKULT {
+				ofail(g, zeit, "annual-crop-flagged-permanent", "DAUERKULT=true LEGUM=%v format-yml=%v", g.LEGUM, yml)
 			}
 			growing := tr.active && tr.akf == ai && zeit > pre.SAAT[ai] && (g.ERNTE[ai] == 0 || zeit <= g.ERNTE[ai])
 			if growing || sowing {
